@@ -8,6 +8,7 @@ import (
 	"path/filepath"
 	"sort"
 	"strings"
+	"sync"
 
 	"golang.org/x/tools/go/packages"
 	"golang.org/x/tools/go/ssa"
@@ -22,6 +23,8 @@ type Program struct {
 	C        *Contracts
 	repo     string
 	effMemo  map[*ssa.Function]*effect
+	effMu    sync.Mutex
+	concOnce sync.Once
 	concrete []types.Type
 	loadErrs []string
 }
@@ -192,9 +195,11 @@ func (P *Program) funcName(f *types.Func) string {
 
 // concreteTypes: named non-interface types of the loaded program (T and *T), sorted.
 func (P *Program) concreteTypes() []types.Type {
-	if P.concrete != nil {
-		return P.concrete
-	}
+	P.concOnce.Do(P.initConcrete)
+	return P.concrete
+}
+
+func (P *Program) initConcrete() {
 	var paths []string
 	for p := range P.typePkgs {
 		paths = append(paths, p)
@@ -217,5 +222,4 @@ func (P *Program) concreteTypes() []types.Type {
 			P.concrete = append(P.concrete, t, types.NewPointer(t))
 		}
 	}
-	return P.concrete
 }
